@@ -137,6 +137,10 @@ func (this *RaftGroup) Start() error {
 		if err := this.processSnapshotFn(snap.Data); err != nil {
 			return err
 		}
+		// The membership at the snapshot's index. The changes that led to it
+		// are not replayed, and the next local snapshot has to store it.
+		confState := snap.Metadata.ConfState
+		this.raftConfState = &confState
 	}
 	this.started = true
 	go this.run()
@@ -244,6 +248,10 @@ func (this *RaftGroup) run() {
 				if rd.Snapshot.Metadata.Index > lastAppliedIdx {
 					lastAppliedIdx = rd.Snapshot.Metadata.Index
 				}
+				// The membership changes this snapshot covers are not applied
+				// one by one: take the membership from the snapshot
+				confState := rd.Snapshot.Metadata.ConfState
+				this.raftConfState = &confState
 			}
 			for _, entry := range rd.CommittedEntries {
 				if entry.Type == raftpb.EntryConfChange {
